@@ -200,6 +200,11 @@ func (t *Queue[T]) Poll(waitIfEmpty bool) T {
 			// immediately return the value if the pending timeouts are supposed to be ignored
 			if t.shutdownFlags.HasBits(IgnorePendingTimeouts) {
 				timeutil.CleanupTimer(timer)
+				// a cancellation that completed before this point wins (several channels can be ready at once)
+				if polledElement.Value.isCanceled() {
+					continue
+				}
+
 				return polledElement.Value.Value
 			}
 
@@ -212,6 +217,11 @@ func (t *Queue[T]) Poll(waitIfEmpty bool) T {
 
 			// return the result after the time is reached
 			case <-timer.C:
+				// a cancellation that completed before this point wins (both channels can be ready at once)
+				if polledElement.Value.isCanceled() {
+					continue
+				}
+
 				return polledElement.Value.Value
 			}
 
@@ -222,6 +232,11 @@ func (t *Queue[T]) Poll(waitIfEmpty bool) T {
 
 		// return the result after the time is reached
 		case <-timer.C:
+			// a cancellation that completed before this point wins (both channels can be ready at once)
+			if polledElement.Value.isCanceled() {
+				continue
+			}
+
 			return polledElement.Value.Value
 		}
 	}
@@ -250,6 +265,16 @@ type QueueElement[T any] struct {
 	timedQueue *Queue[T]
 	cancel     chan byte
 	rawElem    *generalheap.HeapElement[HeapKey, *QueueElement[T]]
+}
+
+// isCanceled returns true if Cancel was called on the element (its cancel channel is closed).
+func (timedQueueElement *QueueElement[T]) isCanceled() bool {
+	select {
+	case <-timedQueueElement.cancel:
+		return true
+	default:
+		return false
+	}
 }
 
 // Cancel removed the given element from the queue and cancels its execution.
